@@ -144,10 +144,12 @@ def run_property(prop, tier, seed, only=None, jobs=None, verbose=False, list_onl
                     res = _crash(ob, f"worker exit code {p.exitcode}")
                 results.append(res)
                 done.append(name)
-            elif time.time() - ts > to:
+            elif _cpu_s(p.pid, time.time() - ts) > to or time.time() - ts > 6 * to:
+                # budget in CPU seconds of the worker (verdicts do not depend on machine load);
+                # wall-clock safety net at 6x
                 p.kill()
                 p.join(5)
-                results.append(_crash(ob, f"timeout after {to}s (never counted as discharged)"))
+                results.append(_crash(ob, f"timeout after {to}s CPU (never counted as discharged)"))
                 done.append(name)
         for n in done:
             running.pop(n)
@@ -157,6 +159,19 @@ def run_property(prop, tier, seed, only=None, jobs=None, verbose=False, list_onl
         if not done:
             time.sleep(0.05)
     return finish(prop, tier, seed, results, meta, time.time() - t0, verbose)
+
+
+_CLK = os.sysconf("SC_CLK_TCK") if hasattr(os, "sysconf") else 100
+
+
+def _cpu_s(pid, fallback):
+    """user+system CPU seconds of a worker (and its reaped children) from /proc; wall time if unavailable"""
+    try:
+        with open(f"/proc/{pid}/stat") as f:
+            parts = f.read().rsplit(")", 1)[1].split()
+        return (int(parts[11]) + int(parts[12]) + int(parts[13]) + int(parts[14])) / _CLK
+    except Exception:
+        return fallback
 
 
 def _crash(ob, why):
